@@ -360,9 +360,15 @@ func runCheck(id, tier string, seed uint64, workers, runs, ms int, replay, work 
 		cmd.Env = append(env(), "VERIF_PROP="+id, "VERIF_REPLAY="+replay, "VERIF_OUT="+resPath, "VERIF_TIER="+rtier, "GODEBUG=randseednop=0",
 			"VERIF_RACE_LOG="+filepath.Join(work, "race-replay"),
 			"GORACE=halt_on_error=0 log_path="+filepath.Join(work, "race-replay")+" suppress_equal_stacks=0 suppress_equal_addresses=0 exitcode=0")
-		cmd.Stdout = os.Stdout
-		cmd.Stderr = os.Stderr
+		var rlog bytes.Buffer
+		cmd.Stdout = io.MultiWriter(os.Stdout, &rlog)
+		cmd.Stderr = io.MultiWriter(os.Stderr, &rlog)
 		if err := cmd.Run(); err != nil {
+			if _, handled := libraryPanicLine(rlog.String()); handled {
+				// a recorded library panic reproduced: the replay process died the same way
+				fmt.Printf("VIOLATION property=%s replay=%s\n", id, replay)
+				return 1
+			}
 			fmt.Fprintln(os.Stderr, "check: replay process failed:", err)
 			return 2
 		}
@@ -392,6 +398,7 @@ func runCheck(id, tier string, seed uint64, workers, runs, ms int, replay, work 
 		}
 	}
 	var extra []string
+	effectiveTier = tier
 	extra = append(extra, "VERIF_TIER="+tier, "VERIF_TREE="+tree)
 	if runs > 0 {
 		extra = append(extra, "VERIF_RUNS="+strconv.Itoa(runs))
@@ -679,7 +686,12 @@ func runCheck(id, tier string, seed uint64, workers, runs, ms int, replay, work 
 
 // crashVerdict: a Go runtime fatal error in a worker (e.g. concurrent map
 // writes) is a violation for C17, harness trouble otherwise.
+var effectiveTier = "quick"
+
 func crashVerdict(id, logs, work string) (int, bool) {
+	if code, handled := libraryPanicVerdict(id, logs, work); handled {
+		return code, true
+	}
 	if id != "C17" {
 		return 0, false
 	}
@@ -690,6 +702,97 @@ func crashVerdict(id, logs, work string) (int, bool) {
 		return 1, true
 	}
 	return 0, false
+}
+
+// libraryPanicVerdict: the worker died from an unrecovered panic whose goroutine was executing the
+// library under test (first frame below the runtime's panic machinery is in the library's module, not
+// in the harness): typically a goroutine the library or a third-party runtime spawned (registry poller,
+// subscription helper, gRPC server handler), where the harness cannot recover. No property holds for a
+// call that takes the process down: reported as a violation with a run-seed replay file.
+func libraryPanicVerdict(id, logs, work string) (int, bool) {
+	rest, ok := libraryPanicLine(logs)
+	if !ok {
+		return 0, false
+	}
+	msg := firstLineOf(rest)
+	return reportLibraryPanic(id, rest, msg, work)
+}
+
+// libraryPanicLine returns the panic report (from its "panic: " line on) if the panicking goroutine was
+// executing the library under test.
+func libraryPanicLine(logs string) (string, bool) {
+	idx := strings.Index(logs, "\npanic: ")
+	if idx < 0 {
+		if !strings.HasPrefix(logs, "panic: ") {
+			return "", false
+		}
+		idx = -1
+	}
+	rest := logs[idx+1:]
+	lines := strings.Split(rest, "\n")
+	const lib = "github.com/platinummonkey/go-concurrency-limits/"
+	inLib := false
+	seenG := false
+	for _, l := range lines[1:] {
+		if strings.HasPrefix(l, "goroutine ") {
+			if seenG {
+				break // only the panicking goroutine (printed first)
+			}
+			seenG = true
+			continue
+		}
+		if !seenG || l == "" || strings.HasPrefix(l, "\t") || strings.HasPrefix(l, "[signal") {
+			continue
+		}
+		if strings.HasPrefix(l, "panic(") || strings.HasPrefix(l, "runtime.") || strings.HasPrefix(l, "sync.") || strings.HasPrefix(l, "sync/atomic.") || strings.HasPrefix(l, "internal/") {
+			continue
+		}
+		inLib = strings.HasPrefix(l, lib) && !strings.HasPrefix(l, lib+"verifsim.")
+		break
+	}
+	return rest, inLib
+}
+
+func reportLibraryPanic(id, rest, msg, work string) (int, bool) {
+	// which run was executing
+	var runSeed uint64
+	var runIdx, worker int
+	found := false
+	matches, _ := filepath.Glob(filepath.Join(work, "*.json.cur"))
+	dets, _ := filepath.Glob(filepath.Join(work, "det*", "*.json.cur"))
+	for _, f := range append(matches, dets...) {
+		// the crashed worker left no output file
+		if _, err := os.Stat(strings.TrimSuffix(f, ".cur")); err == nil {
+			continue
+		}
+		b, err := os.ReadFile(f)
+		if err != nil {
+			continue
+		}
+		if _, err := fmt.Sscanf(string(b), "%d %d", &runSeed, &runIdx); err == nil {
+			fmt.Sscanf(filepath.Base(f), "w%d.json.cur", &worker)
+			found = true
+			break
+		}
+	}
+	path := filepath.Join(verifDir, "replays", fmt.Sprintf("%s-crash-%d.json", id, os.Getpid()))
+	rf := map[string]any{"property": id, "violation_class": "library-panic", "key": firstLineOf(msg), "message": tail(rest, 6000),
+		"worker": worker, "run": runIdx, "run_seed": runSeed, "tape": []uint64{}, "event_log_hash": "", "tier": effectiveTier}
+	jb, _ := json.MarshalIndent(rf, "", " ")
+	os.WriteFile(path, jb, 0o644)
+	fmt.Printf("  violation class=library-panic key=%s (the worker process died; run seed known=%v)\n    %s\n", firstLineOf(msg), found, msg)
+	fmt.Printf("VIOLATION property=%s replay=%s\n", id, path)
+	return 1, true
+}
+
+func firstLineOf(s string) string {
+	if i := strings.IndexByte(s, '\n'); i >= 0 {
+		s = s[:i]
+	}
+	if len(s) > 120 {
+		s = s[:120]
+	}
+	return s
 }
 
 func tail(s string, n int) string {
